@@ -10,6 +10,7 @@ import ShmVerif.Drv.C16
 import ShmVerif.Drv.C12
 import ShmVerif.Drv.C14
 import ShmVerif.Drv.C19
+import ShmVerif.Drv.C11
 import ShmVerif.Drv.C07
 /-! `shmdriver`: reads op lines on stdin, runs the executable models the theorems are about, prints one line
     per op line. First line: `model <name>`; `case <k>` resets the model state. -/
@@ -43,6 +44,7 @@ def main : IO Unit := do
   | "model c12" => loop h out () Drv.C12.step ()
   | "model c14" => loop h out ({} : Drv.C14.DSt) Drv.C14.step {}
   | "model c19" => loop h out ({} : Drv.C19.DSt) Drv.C19.step {}
+  | "model c11" => loop h out ({} : Drv.C11.DSt) Drv.C11.step {}
   | "model c16" => loop h out ({} : Drv.C16.DSt) Drv.C16.step {}
   | "model c20" => loop h out ({} : Drv.C20.DSt) Drv.C20.step {}
   | "model c07" => loop h out ({} : Drv.C07.St) Drv.C07.step {}
